@@ -420,6 +420,8 @@ impl PersistBackend for FilePersist {
             }
         }
 
+        #[cfg(inputlayer_verif)]
+        crate::verif_hooks::point("append.after_wal");
         // Add to buffer
         let should_flush = {
             let mut shards = self.shards.write();
@@ -442,6 +444,8 @@ impl PersistBackend for FilePersist {
             state.buffer.len() >= self.config.buffer_size
         };
 
+        #[cfg(inputlayer_verif)]
+        crate::verif_hooks::point("append.after_buffer");
         // Flush if buffer is full
         if should_flush {
             self.flush(shard)?;
@@ -487,6 +491,8 @@ impl PersistBackend for FilePersist {
     fn compact(&self, shard: &str, new_since: u64) -> StorageResult<()> {
         // Flush first to ensure all data is in batches
         self.flush(shard)?;
+        #[cfg(inputlayer_verif)]
+        crate::verif_hooks::point("compact.after_flush");
 
         let mut shards = self.shards.write();
         let state = shards
@@ -525,17 +531,23 @@ impl PersistBackend for FilePersist {
             });
         }
 
+        #[cfg(inputlayer_verif)]
+        crate::verif_hooks::point("compact.after_batch");
         // Step 2: Update metadata atomically (write-to-temp+rename in save_shard_meta)
         // After this succeeds, metadata points to the new batch only.
         state.meta.advance_since(new_since);
         self.save_shard_meta(&state.meta)?;
 
+        #[cfg(inputlayer_verif)]
+        crate::verif_hooks::point("compact.after_meta");
         // Step 3: Delete old batch files LAST (safe - metadata no longer references them)
         // If we crash here, we have orphaned files but no data loss.
         for batch_ref in &old_batches {
             let _ = fs::remove_file(&batch_ref.path);
         }
 
+        #[cfg(inputlayer_verif)]
+        crate::verif_hooks::point("compact.after_delete");
         // Sync batches directory to ensure deletions are durable
         if !old_batches.is_empty() {
             sync_directory(&self.config.path.join("batches"));
@@ -579,6 +591,8 @@ impl PersistBackend for FilePersist {
     }
 
     fn flush(&self, shard: &str) -> StorageResult<()> {
+        #[cfg(inputlayer_verif)]
+        crate::verif_hooks::point("flush.enter");
         let mut shards = self.shards.write();
         let state = shards
             .get_mut(shard)
@@ -600,6 +614,8 @@ impl PersistBackend for FilePersist {
             len: batch.len(),
         };
 
+        #[cfg(inputlayer_verif)]
+        crate::verif_hooks::point("flush.after_batch");
         // Step 2: Update metadata and save atomically
         state.meta.add_batch(batch_ref);
         state.buffer.clear();
@@ -610,11 +626,15 @@ impl PersistBackend for FilePersist {
             return Err(e);
         }
 
+        #[cfg(inputlayer_verif)]
+        crate::verif_hooks::point("flush.after_meta");
         // Step 3: Remove WAL entries LAST (safe - metadata already points to batch)
         {
             let mut wal = self.wal.lock();
             wal.remove_shard_entries(shard)?;
         }
+        #[cfg(inputlayer_verif)]
+        crate::verif_hooks::point("flush.after_wal");
 
         Ok(())
     }
@@ -626,6 +646,8 @@ impl PersistBackend for FilePersist {
             shards.remove(shard)
         }; // write lock released - other shards unblocked
 
+        #[cfg(inputlayer_verif)]
+        crate::verif_hooks::point("delshard.after_map_remove");
         // Step 2: Delete batch files FIRST (crash-safe ordering)
         // If we crash here, metadata still references them but they're gone.
         // On next startup, load_shards will see missing files and handle gracefully.
@@ -642,6 +664,8 @@ impl PersistBackend for FilePersist {
             }
         }
 
+        #[cfg(inputlayer_verif)]
+        crate::verif_hooks::point("delshard.after_batches");
         // Step 3: Selective WAL filter - remove only this shard's entries
         // Other shards' WAL data is PRESERVED (no need to flush them)
         {
@@ -649,6 +673,8 @@ impl PersistBackend for FilePersist {
             wal.remove_shard_entries(shard)?;
         }
 
+        #[cfg(inputlayer_verif)]
+        crate::verif_hooks::point("delshard.after_wal");
         // Step 4: Delete metadata file LAST (crash-safe ordering)
         // After this, the shard is fully removed from disk.
         let meta_path = self
